@@ -91,7 +91,35 @@ def run_step(context):
     raise make(json.loads(os.environ['C18_BOOM']))
 '''
 
-HELPER_MODULES = ('c18probe', 'c18boom')
+MUTATE_SRC = '''"""C18 mutate step: changes, in place, every container reachable from the context."""
+import c18_run
+
+
+def run_step(context):
+    c18_run.mutate_containers(context, skip=('c18tag',))
+'''
+
+HELPER_MODULES = ('c18probe', 'c18boom', 'c18mutate')
+MARK = '__c18_mutated__'
+
+
+def mutate_containers(obj, skip=(), _seen=None):
+    """Append a marker to every list and add a marker key to every dict reachable from obj
+    (in place).  A parser whose results share structure between calls shows it afterwards."""
+    from collections.abc import MutableMapping
+    seen = _seen if _seen is not None else set()
+    if id(obj) in seen:
+        return
+    seen.add(id(obj))
+    if isinstance(obj, MutableMapping):
+        for k in list(obj.keys()):
+            if k not in skip:
+                mutate_containers(obj[k], (), seen)
+        obj[MARK] = [MARK]
+    elif isinstance(obj, list):
+        for x in list(obj):
+            mutate_containers(x, (), seen)
+        obj.append(MARK)
 
 
 def make_exc(cfg):
@@ -163,13 +191,20 @@ def canon_result(call):
 # ---------------------------------------------------------------- K1: parser modules
 
 def run_parser_case(case):
+    """Call the parser three times on equal argument lists; between the calls every container
+    reachable from the earlier result is changed in place (as a pipeline step may do)."""
     mod = importlib.import_module('pypyr.parser.' + case['parser'])
     args = case['args']
-    a1 = None if args is None else list(args)
-    res, out = canon_result(lambda: mod.get_parsed_context(a1))
-    a2 = None if args is None else list(args)
-    res2, _ = canon_result(lambda: mod.get_parsed_context(a2))
-    return {'res': res, 'again': res2, 'args_unchanged': a1 == args}
+    results, unchanged = [], True
+    for _ in range(3):
+        a = None if args is None else list(args)
+        res, out = canon_result(lambda: mod.get_parsed_context(a))
+        unchanged = unchanged and a == args          # before the result is touched
+        results.append(res)
+        if out is not None:
+            with contextlib.suppress(Exception):
+                mutate_containers(out)
+    return {'res': results[0], 'again': results[1], 'third': results[2], 'args_unchanged': unchanged}
 
 
 # ---------------------------------------------------------------- K2: _get_parse_input
@@ -196,6 +231,7 @@ class Sandbox:
             d.mkdir(exist_ok=True)
         (self.mods / 'c18probe.py').write_text(PROBE_SRC, encoding='utf-8')
         (self.mods / 'c18boom.py').write_text(BOOM_SRC, encoding='utf-8')
+        (self.mods / 'c18mutate.py').write_text(MUTATE_SRC, encoding='utf-8')
         self.probe_out = Path(tmp, 'probe.jsonl')
 
     def write_pipeline(self, fname, body):
@@ -246,32 +282,48 @@ def clean_process_state(env, quiet_logging=False):
 # ---------------------------------------------------------------- K3: the API
 
 def run_api_case(case):
+    """pypyr.pipelinerunner.run twice in this process with equal arguments: first step = probe,
+    second step changes every container of the context in place, third = probe."""
     import pypyr.pipelinerunner
     with tempfile.TemporaryDirectory(prefix='c18-') as tmp:
         sb = Sandbox(tmp, mods_with_pipes=True)
-        body = {'steps': [{'name': 'c18probe', 'in': {'c18tag': 0}}]}
+        body = {'steps': [{'name': 'c18probe', 'in': {'c18tag': 0}}, 'c18mutate',
+                          {'name': 'c18probe', 'in': {'c18tag': 99}}]}
         if case['parser']:
             body['context_parser'] = 'pypyr.parser.' + case['parser']
         sb.write_pipeline('api', body)
-        dict_in = None if case['dict_in'] is None else pv.to_py({'d': case['dict_in']})
-        args_in = None if case['args_in'] is None else list(case['args_in'])
         env = {'C18_PROBE_OUT': str(sb.probe_out), 'PYPYR_SKIP_INIT': '1'}
+        runs = []
         with clean_process_state(env, quiet_logging=True):
-            err = None
-            try:
-                pypyr.pipelinerunner.run(str(sb.pipes / 'api'), args_in=args_in,
-                                         parse_args=case['parse_args'], dict_in=dict_in)
-            except Exception as e:  # noqa
-                name = err_name(e)
-                err = ['err', name, '' if name == 'json.decoder.JSONDecodeError' else str(e)]
-        recs = sb.probe_records()
-    if err:
-        return {'res': err, 'probe_ran': bool(recs)}
-    if not recs:
-        return {'res': ['err', 'NoProbe', 'the first step did not run'], 'probe_ran': False}
-    return {'res': ['ok', {'d': recs[0]['ctx']}], 'probe_ran': True,
-            'parse_input_seen': recs[0]['pipe']['parse_input'],
-            'context_args_seen': recs[0]['pipe']['context_args']}
+            for _ in range(2):
+                dict_in = None if case['dict_in'] is None else pv.to_py({'d': case['dict_in']})
+                args_in = None if case['args_in'] is None else list(case['args_in'])
+                before = len(sb.probe_records())
+                err = None
+                try:
+                    pypyr.pipelinerunner.run(str(sb.pipes / 'api'), args_in=args_in,
+                                             parse_args=case['parse_args'], dict_in=dict_in)
+                except Exception as e:  # noqa
+                    name = err_name(e)
+                    err = ['err', name, '' if name == 'json.decoder.JSONDecodeError' else str(e)]
+                runs.append((err, sb.probe_records()[before:]))
+    out = {}
+    for i, (err, recs) in enumerate(runs):
+        sfx = '' if i == 0 else str(i + 1)
+        first = [r for r in recs if r['tag'] == 0]
+        if err:
+            out['res' + sfx] = err
+        elif not first:
+            out['res' + sfx] = ['err', 'NoProbe', 'the first step did not run']
+        else:
+            out['res' + sfx] = ['ok', {'d': first[0]['ctx']}]
+        if i == 0:
+            out['probe_ran'] = bool(first)
+            if first:
+                out['parse_input_seen'] = first[0]['pipe']['parse_input']
+                out['context_args_seen'] = first[0]['pipe']['context_args']
+                out['mutated'] = any(r['tag'] == 99 for r in recs)
+    return out
 
 
 # ---------------------------------------------------------------- K4: the command line
